@@ -52,7 +52,9 @@ func ackScripts(timeout time.Duration) []ackScript {
 		{name: "empty-map", resp: func(c []byte) []byte { return []byte{0x80} }},
 		{name: "ack-not-string", resp: func(c []byte) []byte { return mapMsg("ack", int64(7)) }},
 		{name: "nil", resp: func(c []byte) []byte { return []byte{0xc0} }},
-		{name: "array", resp: func(c []byte) []byte { return append([]byte{0x92, 0xa3, 'a', 'c', 'k'}, msgp.AppendString(nil, string(c))...) }},
+		{name: "array", resp: func(c []byte) []byte {
+			return append([]byte{0x92, 0xa3, 'a', 'c', 'k'}, msgp.AppendString(nil, string(c))...)
+		}},
 		{name: "garbage", resp: func(c []byte) []byte { return []byte{0xc1, 0xff, 0x00, 0x81} }},
 		{name: "eof", resp: func(c []byte) []byte { return nil }},
 		{name: "silence", resp: func(c []byte) []byte { return nil }, silent: true},
@@ -102,6 +104,53 @@ func C04(c *core.Ctx) {
 		}
 		if sc.silent && !sc.wantOK && x.dur < timeout-20*time.Millisecond {
 			c.Hist("silence returned early")
+		}
+	}
+	// long chunk ids (caller-supplied ids may be any string): the ack is then longer than any
+	// small fixed read buffer
+	for _, n := range []int{30, 57, 58, 64, 100, 300, 3000} {
+		id := strings.Repeat("k", n)
+		for _, sc := range scripts {
+			if sc.silent || sc.delay > 0 || !(sc.name == "matching" || sc.name == "matching-bytewise" || sc.name == "other-chunk" || sc.name == "matching-extra-key-before") {
+				continue
+			}
+			m := sizedMessage(r, "message", 10, id)
+			o := mkSend(cf, m, -1)
+			o.resp = sc.resp(o.chunk)
+			o.frag = sc.frag
+			note := fmt.Sprintf("chunk id of %d bytes, peer=%s", n, sc.name)
+			rs := sendCase(c, "c04", cf, []cop{o}, note)
+			c.Hist("long chunk id peer=" + sc.name + " -> " + rs[1].ret)
+			if (rs[1].ret == "ok") != sc.wantOK {
+				c.Violation("judge-go", "c04-long-chunk", fmt.Sprintf("Send returned %s (%s)", rs[1].ret, note), map[string]interface{}{"chunk_len": n, "peer": sc.name})
+			}
+			if rs[1].dur > timeout+slack {
+				c.Violation("judge-go", "c04-slow", fmt.Sprintf("Send took %v with a %v timeout (%s)", rs[1].dur, timeout, note), nil)
+			}
+		}
+	}
+	// the same chunk id again: an ack seen for an EARLIER send must not count for a later one
+	for _, kind := range kinds {
+		id := "again-" + kind
+		var ops []cop
+		plan := []string{"matching", "no-ack-key", "empty-map", "matching", "nil", "eof"}
+		for _, name := range plan {
+			var sc ackScript
+			for _, x := range scripts {
+				if x.name == name {
+					sc = x
+				}
+			}
+			o := mkSend(cf, sizedMessage(r, kind, 10, id), -1)
+			o.resp = sc.resp(o.chunk)
+			ops = append(ops, o)
+		}
+		rs := sendCase(c, "c04", cf, ops, "six sends carrying the SAME chunk id ("+kind+"): ack, no ack key, {}, ack, nil, EOF")
+		c.Hist("same chunk id resent")
+		for i, name := range plan {
+			if (rs[i+1].ret == "ok") != (name == "matching") {
+				c.Violation("judge-go", "c04-stale-ack", fmt.Sprintf("send %d (peer=%s) of a sequence reusing one chunk id returned %s", i, name, rs[i+1].ret), map[string]interface{}{"kind": kind})
+			}
 		}
 	}
 	reps := c.N(1, 6)
